@@ -34,6 +34,9 @@ type c15Cycle struct {
 	DelayMS  int      `json:"delay_ms"` // pause between the burst and the signal
 	Inflight bool     `json:"inflight"` // traffic (data and fresh template announcements) continues until the process is gone
 	Fresh    []c15Key `json:"fresh"`    // templates first announced during the shutdown window
+	// Redefine: templates acknowledged in an earlier cycle are re-announced with this (smaller) definition,
+	// so that the cache written at this cycle's shutdown is shorter than the file it replaces
+	Redefine []c15Key `json:"redefine,omitempty"`
 }
 
 type c15Case struct {
@@ -43,7 +46,7 @@ type c15Case struct {
 }
 
 const c15Rule = "case = 1..3 stop/start cycles of the real collector binary (2..8 workers per protocol, rawSocket sink and restful stats owned by the harness, per-instance pid and cache files) with 1..8 exporters on 127.0.0.x and ::1: " +
-	"per cycle new IPFIX / NetFlow v9 templates are announced and acknowledged (a data message using them reached the sink), sFlow/NetFlow v5 noise, a data burst, then SIGTERM or SIGINT after a drawn delay, " +
+	"per cycle new IPFIX / NetFlow v9 templates are announced (or all known ones redefined with a shorter definition, so that the next cache file is shorter than the one it replaces) and acknowledged (a data message using them reached the sink), sFlow/NetFlow v5 noise, a data burst, then SIGTERM or SIGINT after a drawn delay, " +
 	"optionally with traffic (data and announcements of fresh template ids) continuing through the shutdown window; a final verification restart follows the last cycle; " +
 	"oracle per cycle = exit status 0 within 6 s of the signal, stderr free of panic / fatal error / concurrent map, both cache files exist, load and decode data for every acknowledged (exporter,id) to the reference decode, " +
 	"and after the restart data sent WITHOUT templates for every acknowledged (exporter,id) is published with the reference payload; " +
@@ -85,6 +88,16 @@ func genC15(t *rapid.T) c15Case {
 		nk := rapid.IntRange(0, 6).Draw(t, "nkeys")
 		if i == 0 && nk == 0 {
 			nk = 1
+		}
+		if i > 0 && rapid.IntRange(0, 2).Draw(t, "shrink") == 0 {
+			// every template known so far is redefined with one short field and nothing new is announced
+			nk = 0
+			for _, prev := range c.Cycles {
+				for _, k := range prev.NewKeys {
+					small := wire.Template{ID: k.Tpl.ID, Fields: []wire.Field{{ID: 4, Len: 1, Type: wire.TUint8}}}
+					cy.Redefine = append(cy.Redefine, c15Key{Proto: k.Proto, Exp: k.Exp, Tpl: small, Recs: []wire.Record{{Vals: []wire.Hex{{byte(6 + i)}}}}})
+				}
+			}
 		}
 		for k := 0; k < nk; k++ {
 			cy.NewKeys = append(cy.NewKeys, genKey())
@@ -233,9 +246,16 @@ func runC15(c *c15Case) (v verdict, sig string, err error) {
 			break
 		}
 		cy := c.Cycles[ci]
-		// new templates: announce, then data until published (= acknowledged)
+		// new templates (and redefinitions of known ones): announce, then data until published (= acknowledged)
+		toAnnounce := make([]*c15Key, 0, len(cy.NewKeys)+len(cy.Redefine))
 		for ki := range cy.NewKeys {
-			k := &cy.NewKeys[ki]
+			toAnnounce = append(toAnnounce, &cy.NewKeys[ki])
+		}
+		for ki := range cy.Redefine {
+			toAnnounce = append(toAnnounce, &cy.Redefine[ki])
+		}
+		v.label(len(cy.Redefine) > 0, "templates-redefined-smaller")
+		for _, k := range toAnnounce {
 			ann := r.announceMsg(k)
 			if _, perr := r.replica[k.Proto].decodeFlow(r.exps[k.Exp].addr, ann); perr != nil {
 				return fail("", "harness: %v", perr)
@@ -256,7 +276,15 @@ func runC15(c *c15Case) (v verdict, sig string, err error) {
 			if !ok {
 				return fail("not-published", "data for the freshly announced %s template %d was never published (20 attempts); log tail: %s", k.Proto, k.Tpl.ID, tail(proc.stderrText(), 600))
 			}
-			acked = append(acked, k)
+			replaced := false
+			for ai, a := range acked {
+				if a.Proto == k.Proto && a.Exp == k.Exp && a.Tpl.ID == k.Tpl.ID {
+					acked[ai], replaced = k, true
+				}
+			}
+			if !replaced {
+				acked = append(acked, k)
+			}
 		}
 		// noise on the other two protocols
 		for i := 0; i < cy.Noise; i++ {
